@@ -42,7 +42,7 @@ structure St where
   heap : Heap := []
   /-- bytes written to the Output stream -/
   out : String := ""
-  deriving Repr, Inhabited
+  deriving Repr, Inhabited, DecidableEq
 
 /-- per-thread state: `local` variables, the group, and the argument list (`fastEvent`, `fastIndex`) -/
 structure Frame where
@@ -50,7 +50,7 @@ structure Frame where
   group : Nat := 0
   args : List Val := []
   fastIndex : Nat := 0
-  deriving Repr, Inhabited
+  deriving Repr, Inhabited, DecidableEq
 
 inductive Flow where
   | normal
@@ -65,7 +65,7 @@ inductive Res (α : Type) where
   | ok (a : α)
   | err (e : Err)
   | timeout
-  deriving Repr, Inhabited
+  deriving Repr, Inhabited, DecidableEq
 
 instance : Monad Res where
   pure := .ok
